@@ -124,6 +124,15 @@ class C15(Prop):
                              "the generated cases; `Rc<Option<F>>`/`Arc<Mutex<Option<F>>>` take() is one atomic step here")
 
     # ------------------------------------------------------------------ cases
+    # translator tie: FinalizerObserver / FinalizerSubscription generated from src/ops/finalize.rs (both flavours) are
+    # the `Fin` cell of the model; the wiring of actual_subscribe (one func cell for both halves) is pinned
+    tie_modules = {
+        "RxModel.GenTie.Finalize": ["fin"],
+        "RxModel.GenTie.FinalizeThreads": ["fin"],
+        "RxModel.GenTie.WiringFinalize": ["fin"],
+        "RxModel.GenTie.WiringFinalizeThreads": ["fin"],
+    }
+
     def cases(self, tier, seed):
         rng = random.Random(seed)
         out = []
